@@ -14,6 +14,7 @@ def errJ : Err → Json
   | .unknownGroup => "unknownGroup"
   | .notFound => "notFound"
   | .outOfFuel => "outOfFuel"
+  | .attributeError => "attributeError"
 
 def natsJ (l : List Nat) : Json := Json.arr (l.map (fun (n : Nat) => (n : Json))).toArray
 
@@ -32,7 +33,16 @@ def cellJ : Except Err Cell → Json
 def resolvedAll (c : Cell) (fuel : Nat) (ids : List Nat) : Json :=
   Json.arr (ids.map (fun (g : Nat) => Json.arr #[(g : Json), resJ (resolve c fuel g)])).toArray
 
-def handle (j : Json) : Json :=
+/-- the same ids asked with `assume_all_means_all=False` -/
+def resolvedNoAll (c : Cell) (fuel : Nat) (ids : List Nat) : Json :=
+  Json.arr (ids.map (fun (g : Nat) => Json.arr #[(g : Json), resJ (resolveArg c fuel (.str g) false)])).toArray
+
+/-- every `SegmentGroup` object of the cell (also one hidden behind an earlier group with the same id) and one
+    object that does not belong to the cell, passed instead of an id -/
+def resolvedObjs (c : Cell) (fuel : Nat) (extra : List Group) : Json :=
+  Json.arr ((c.groups ++ extra).map (fun G => resJ (resolveArg c fuel (.obj G) true))).toArray
+
+def handleFull (j : Json) : Json :=
   let c : Cell := ⟨natList (getObj j "segs"), (getArr j "groups").toList.map parseGroup⟩
   let key := parseKey j
   let fuel := getNat j "fuel"
@@ -43,6 +53,15 @@ def handle (j : Json) : Json :=
   let once := op c
   let after := match once with | .ok c' => resolvedAll c' fuel ids | .error _ => Json.null
   let twice := match once with | .ok c' => cellJ (op c') | .error _ => Json.null
-  Json.mkObj [("before", resolvedAll c fuel ids), ("once", cellJ once), ("after", after), ("twice", twice)]
+  let extra := (getArr j "foreign").toList.map parseGroup
+  Json.mkObj [("before", resolvedAll c fuel ids), ("once", cellJ once), ("after", after), ("twice", twice),
+    ("noall", resolvedNoAll c fuel ids), ("objs", resolvedObjs c fuel extra)]
+
+/-- `op = "none"`: only the resolutions asked for (the deep-chain stream: thousands of groups) -/
+def handle (j : Json) : Json :=
+  if getStr j "op" == "none" then
+    let c : Cell := ⟨natList (getObj j "segs"), (getArr j "groups").toList.map parseGroup⟩
+    Json.mkObj [("before", resolvedAll c (getNat j "fuel") (natList (getObj j "ask")))]
+  else handleFull j
 
 def main : IO Unit := loop handle
